@@ -125,6 +125,8 @@ where
             (0, input.len())
         };
         let to = min(to, input.len());
+        // The stage may run more iterations than this input has batches (e.g. the input is the result of a filter)
+        let from = min(from, to);
         let result_data = Box::new(&input[from..to]);
         scratchpad.set_any(self.output_data.any(), result_data);
         let result_present = if from / 8 < present.len() {
@@ -203,12 +205,8 @@ impl<'a> VecOperator<'a> for StreamNullVec {
     ) -> Result<(), QueryError> {
         let len = scratchpad.get_any(self.input).len();
         let count = if streaming {
-            assert!(
-                self.current_index == 0 || len > self.current_index,
-                "StreamNullVec: index out of bounds len={} current_index={} batch_size={} has_more={}",
-                len, self.current_index, self.batch_size, self.has_more,
-            );
-            min(self.batch_size, len - self.current_index)
+            // The stage may run more iterations than this input has batches: nothing is left then
+            min(self.batch_size, len.saturating_sub(self.current_index))
         } else {
             len
         };
